@@ -72,6 +72,7 @@ type Enc struct {
 	floatOpsUsed     map[string]bool
 	cellInst         map[*ssa.Alloc]int
 	assumpEffectFree map[string]bool
+	usedExterns      map[string]*FuncContract // assumed contracts applied at a call in this function (key -> contract)
 	closureSiteDone  map[*ssa.Function]bool
 	funcOperandDone  map[*ssa.Function]bool
 	paramRefs        []T
